@@ -108,7 +108,10 @@ type ReqSpec struct {
 	// from a reader without WriteTo that returns data together with io.EOF,
 	// 2 io.Copy in one-byte reads, 3 fmt.Fprint.
 	BodyVia int `json:"body_via,omitempty"`
-	Logs    int `json:"logs"` // records written through the context logger
+	// Abort: after it has set an explicit status and written its answer the
+	// handler panics with http.ErrAbortHandler.
+	Abort bool `json:"abort,omitempty"`
+	Logs  int  `json:"logs"` // records written through the context logger
 	// Hijack: 1 the handler takes over the connection through
 	// w.(http.Hijacker), 2 through http.NewResponseController(w), and writes
 	// its answer to the connection itself (protocol upgrades, proxies).
@@ -127,6 +130,12 @@ type ReqSpec struct {
 	// Flushes: how many times the handler flushes (through a response
 	// controller) after writing.
 	Flushes int `json:"flushes,omitempty"`
+}
+
+// aborts: only invocations that set an explicit final status abort (what
+// "the status it set" means otherwise is the implicit-200 question).
+func (r ReqSpec) aborts() bool {
+	return r.Abort && r.Code != 0 && r.Hijack == 0 && !r.EmptyFirst
 }
 
 // Act is one step of the harness script.
@@ -503,6 +512,12 @@ func checkBatch(c BatchCase) error {
 				_, _ = io.WriteString(w, "response-"+id)
 			}
 		}
+		if spec.aborts() {
+			// The handler gives up after it has answered (net/http's way to
+			// abort a response); the server recovers.  The middleware's
+			// "finished" record still reports what the invocation set.
+			panic(http.ErrAbortHandler)
+		}
 	}))
 
 	recorders := make([]*sink, n)
@@ -530,6 +545,11 @@ func checkBatch(c BatchCase) error {
 		recorders[i] = rr
 		go func() {
 			defer close(done[i])
+			defer func() {
+				if r := recover(); r != nil && r != http.ErrAbortHandler {
+					fail("request %s: the handler chain panicked: %v", id, r)
+				}
+			}()
 			h.ServeHTTP(rr, req)
 		}()
 		select {
@@ -693,6 +713,12 @@ func checkBatch(c BatchCase) error {
 			vp.Class("batch:level-switched-while-the-request-was-in-flight")
 		}
 	}
+	for _, r := range c.Reqs {
+		if r.aborts() {
+			vp.Class("batch:handler-aborts-after-answering")
+			break
+		}
+	}
 	if c.Early && c.Nest == 3 {
 		vp.Class("batch:early-hints-middleware-between-two-log-middlewares")
 	}
@@ -753,6 +779,7 @@ var batchProp = vp.Register(vp.Prop[BatchCase]{
 				Header:  rapid.Bool().Draw(t, "header"),
 				NoBody:  rapid.IntRange(0, 4).Draw(t, "nobody") == 0,
 				BodyVia: rapid.SampledFrom([]int{0, 0, 1, 1, 2, 3}).Draw(t, "bodyvia"),
+				Abort:   rapid.IntRange(0, 4).Draw(t, "abort") == 0,
 				Logs:    rapid.IntRange(0, 2).Draw(t, "logs"),
 				Hijack:  rapid.SampledFrom([]int{0, 0, 0, 1, 2}).Draw(t, "hijack"),
 				NoRaddr: rapid.IntRange(0, 3).Draw(t, "noraddr") == 0,
